@@ -2,6 +2,7 @@ package main
 
 import (
 	"fmt"
+	"os"
 	"go/token"
 	"go/types"
 	"strings"
@@ -360,6 +361,19 @@ func (f *Frame) applyGhost(con *Contract, env map[string]tv, old State) {
 		}
 		tr := &Translator{f: f, env: env, cur: f.st, old: old}
 		inc := tr.expr(e).t
+		if lb := strings.Index(name, "["); lb >= 0 {
+			// indexed ghost counter: #name[key] += n
+			ie, err := parseExpr(strings.TrimSuffix(strings.TrimSpace(name[lb+1:]), "]"))
+			if err != nil {
+				panic(err)
+			}
+			base := strings.TrimSpace(name[:lb])
+			key := tr.expr(ie).t
+			f.enc.declSortOf(key.Sort)
+			cur := stOr(f.enc, old, base, ArrSort(key.Sort, SInt))
+			f.stSet(base, Store(cur, key, Add(Select(cur, key), inc)))
+			continue
+		}
 		cur := stOr(f.enc, old, name, SInt)
 		f.stSet(name, Add(cur, inc))
 	}
@@ -597,6 +611,7 @@ func (f *Frame) doAppend(v ssa.Value, c *ssa.CallCommon, pos token.Pos) {
 				capv := f.enc.declConst(f.enc.fresh(f.sym("cap")), SInt)
 				f.enc.factAbout(capv, Le(nl, capv))
 				res := f.setVal(v, MkSlice(r, Zero, nl, capv))
+				f.appendBridge(res, arr, as, H, r, s)
 				f.appendLemmaFacts(et, s, f.val(addSrc), res, c, content)
 				return
 			}
@@ -614,14 +629,48 @@ func (f *Frame) doAppend(v ssa.Value, c *ssa.CallCommon, pos token.Pos) {
 	} else {
 		tl = SLen(t)
 		src := Select(H, SPtr(t))
-		f.enc.addFact(content.S, fmt.Sprintf("(assert (forall ((k!a Int)) (! (=> (and (<= %[1]s k!a) (< k!a (+ %[1]s %[2]s))) (= (select %[3]s k!a) (%[6]s %[4]s %[5]s (- k!a %[1]s)))) :pattern ((select %[3]s k!a)))))", SLen(s).S, tl.S, content.S, src.S, SOff(t).S, f.atFn(es)))
+		// when the appended part is base[lo:], state its elements as elements of base (offset of base, index shifted
+		// by lo): quantified facts about base then match without arithmetic on the offset
+		boff, shift := SOff(t), ""
+		if sl, ok := addSrc.(*ssa.Slice); ok && sl.Low != nil {
+			if _, isSl := sl.X.Type().Underlying().(*types.Slice); isSl {
+				boff, shift = SOff(f.val(sl.X)), f.val(sl.Low).S
+			}
+		}
+		idx := fmt.Sprintf("(- k!a %s)", SLen(s).S)
+		if shift != "" {
+			idx = fmt.Sprintf("(+ %s (- k!a %s))", shift, SLen(s).S)
+		}
+		f.enc.addFact(content.S, fmt.Sprintf("(assert (forall ((k!a Int)) (! (=> (and (<= %[1]s k!a) (< k!a (+ %[1]s %[2]s))) (= (select %[3]s k!a) (%[6]s %[4]s %[5]s %[7]s))) :pattern ((select %[3]s k!a)))))", SLen(s).S, tl.S, content.S, src.S, boff.S, f.atFn(es), idx))
+		// the same facts read from the source side (where does element j of the source end up?): gives the solver the
+		// witness position in the result for existential goals about kept elements
+		lo := "0"
+		if shift != "" {
+			lo = shift
+		}
+		if os.Getenv("GOVC_NOINV") == "" {
+		f.enc.addFact(content.S, fmt.Sprintf("(assert (forall ((j!a Int)) (! (=> (and (<= %[1]s j!a) (< j!a (+ %[1]s %[2]s))) (= (%[6]s %[3]s 0 (+ %[7]s (- j!a %[1]s))) (%[6]s %[4]s %[5]s j!a))) :pattern ((%[6]s %[4]s %[5]s j!a)))))", lo, tl.S, content.S, src.S, boff.S, f.atFn(es), SLen(s).S))
+		f.enc.addFact(content.S, fmt.Sprintf("(assert (forall ((j!a Int)) (! (=> (and (<= 0 j!a) (< j!a %[1]s)) (= (%[5]s %[2]s 0 j!a) (%[5]s %[3]s %[4]s j!a))) :pattern ((%[5]s %[3]s %[4]s j!a)))))", SLen(s).S, content.S, old.S, SOff(s).S, f.atFn(es)))
+		}
 	}
 	f.stSet(arr, Store(f.stGet(arr, as), r, content))
 	nl := Add(SLen(s), tl)
 	capv := f.enc.declConst(f.enc.fresh(f.sym("cap")), SInt)
 	f.enc.factAbout(capv, Le(nl, capv))
 	res := f.setVal(v, MkSlice(r, Zero, nl, capv))
+	f.appendBridge(res, arr, as, H, r, s)
+	if t.Sort == SSlice {
+		f.appendBridge(res, arr, as, H, r, t)
+	}
 	f.appendLemmaFacts(et, s, t, res, c, content)
+}
+
+// appendBridge: ground instance of the array store axiom for an operand of append: the operand's backing array is the
+// same before and after the result's (fresh) array was installed. A tautology; it puts the select terms of the new
+// heap version into the solver's term graph so that facts stated over earlier versions match lemma triggers.
+func (f *Frame) appendBridge(res T, arr string, as Sort, before T, r T, operand T) {
+	after := f.stGet(arr, as)
+	f.enc.factAbout(res, Implies(Not(Eq(SPtr(operand), r)), Eq(Select(after, SPtr(operand)), Select(before, SPtr(operand)))))
 }
 
 // appendLemmaFacts: instances of the registered (separately proved) list lemmas for c = append(a, b...).
